@@ -8,6 +8,7 @@
 #include "../sim/scenario.hpp"
 #include "../sim/heap.hpp"
 #include <ipr/utility>
+#include <cstdint>
 #include <map>
 #include <set>
 #include <string>
@@ -21,7 +22,7 @@ using namespace sim;
 namespace rb = ipr::util::rb_tree;
 
 enum Probe { P_owning, P_intrusive, P_cmp_int, P_cmp_addr, P_cmp_bytes, P_cmp_addrseq, P_dup_insert,
-             P_height12, P_long_run, P_fault_cfg, P_fault_fired, P_absent_find, P_reuse, P_validations, P_count };
+             P_height12, P_long_run, P_fault_cfg, P_fault_fired, P_absent_find, P_reuse, P_validations, P_cmp_wide, P_count };
 
 enum OpCode { OpInsert = 0, OpFind = 1, OpNoise = 2 };
 
@@ -87,6 +88,11 @@ struct OwnTree : rb::container<T> {
 struct IntCmp {
    int operator()(int a, int b) const { return a < b ? -1 : (b < a ? 1 : 0); }
 };
+// A three-way comparator that answers with a signed 64-bit *difference* (only the sign is meaningful); keys are
+// spread so that differences exceed 2^31 and 2^32.  The tree code takes the comparator's result with `auto`.
+struct WideCmp {
+   std::int64_t operator()(std::int64_t a, std::int64_t b) const { return a - b; }
+};
 struct AddrCmp {
    int operator()(const void* a, const void* b) const { std::less<const void*> lt; return lt(a, b) ? -1 : (lt(b, a) ? 1 : 0); }
 };
@@ -102,6 +108,7 @@ struct AddrSeqCmp {
 
 std::string ptr_str(const void* p) { char b[32]; std::snprintf(b, sizeof b, "%p", p); return b; }
 std::string key_str(int k) { return std::to_string(k); }
+std::string key_str(std::int64_t k) { return std::to_string((long long) k); }
 std::string key_str(const void* k) { return ptr_str(k); }
 std::string key_str(const std::string& k) { std::string s = "\""; for (unsigned char c : k) { char b[8]; std::snprintf(b, sizeof b, c >= 32 and c < 127 ? "%c" : "\\x%02x", c); s += b; } return s + "\""; }
 std::string key_str(const std::vector<const void*>& k) { std::string s = "["; for (auto p : k) s += ptr_str(p) + " "; return s + "]"; }
@@ -363,7 +370,7 @@ struct C08 : Scenario {
    std::vector<std::string> probe_names() const override
    {
       return { "owning", "intrusive", "cmp.int", "cmp.addr", "cmp.bytes", "cmp.addrseq", "dup_insert", "height>=12", "long_run",
-               "fault.alloc_configured", "fault.alloc_fired_in_insert", "absent_key_lookups", "heap.reused_blocks", "validations" };
+               "fault.alloc_configured", "fault.alloc_fired_in_insert", "absent_key_lookups", "heap.reused_blocks", "validations", "cmp.wide_difference" };
    }
    std::vector<std::string> assumptions() const override
    {
@@ -418,7 +425,7 @@ struct C08 : Scenario {
       p.set("policy", int64_t(r.below(4)));
       const bool intrusive = r.chance(1, 3);
       p.set("flavour", intrusive);
-      p.set("cmp", int64_t(intrusive ? r.below(2) : r.below(4)));
+      p.set("cmp", int64_t(intrusive ? r.below(2) : r.below(5)));
       const bool long_run = r.chance(1, tier == 0 ? 750 : 3000);
       size_t n = long_run ? size_t(r.range(5000, tier == 0 ? 20000 : 100000)) : size_t(r.range(1, 90));
       p.set("check_every", long_run ? 64 : 1);
@@ -466,7 +473,7 @@ struct C08 : Scenario {
    Verdict execute(const Plan& plan, RunCtx& ctx) const override
    {
       const bool intrusive = plan.get("flavour", 0) % 2 != 0;
-      const int cmp = int(((plan.get("cmp", 0) % 4) + 4) % 4);
+      const int cmp = int(((plan.get("cmp", 0) % 5) + 5) % 5);
       if (plan.get("long", 0)) ctx.probe(P_long_run);
       if (intrusive) {
          ctx.probe(P_intrusive);
@@ -494,6 +501,13 @@ struct C08 : Scenario {
             w += std::to_string((unsigned long long) (u / 60));
             return w;
          }, "bytes");
+      case 4:
+         ctx.probe(P_cmp_wide);
+         return run_owning<std::int64_t, WideCmp>(plan, ctx, [](int64_t k) {
+            // neighbours a few units apart, a few billions apart and a few 2^33 apart
+            const int64_t sel = k % 3;
+            return sel == 0 ? k : (sel == 1 ? k * 3000000011LL : k * ((int64_t(1) << 33) + 12345));
+         }, "wide");
       default: {
          ctx.probe(P_cmp_addrseq);
          KeyPool pool;
